@@ -617,6 +617,10 @@ func ruleErrProp(w *World, r *RuleResult) {
 					d.add(true, key, pos, "error tested; this is the error edge (handled by the code that follows)", "")
 				case mentioned:
 					d.add(true, key, pos, "error value passed on", "")
+				case e.Callee != nil && w.isPure(e.Callee) && !resultUsed(p, i, e.Res):
+					// a pure query asked "would this succeed?": on this path neither its
+					// value nor its verdict is used, so nothing is lost
+					d.add(true, key, pos, "pure query; neither its value nor its error is used on this path", "")
 				default:
 					d.add(false, key, pos, "", "error result of "+name+" is neither tested nor returned on a path that continues: a failure would be silently dropped")
 				}
@@ -1542,4 +1546,38 @@ func ruleLabelRel(w *World, r *RuleResult) {
 		}
 	}
 	d.flush()
+}
+
+// resultUsed: does anything after event i on path p (a later argument, stored
+// value, condition or the return) mention the result res of the call?
+func resultUsed(p *Path, i int, res *T) bool {
+	if res == nil {
+		return false
+	}
+	k := res.Key()
+	has := func(t *T) bool {
+		return t != nil && t.contains(func(x *T) bool { return x.Key() == k })
+	}
+	for j := i + 1; j < len(p.Events); j++ {
+		e := &p.Events[j]
+		for _, a := range e.Args {
+			if has(a) {
+				return true
+			}
+		}
+		if has(e.Val) || has(e.LV) {
+			return true
+		}
+	}
+	for _, cd := range p.Conds {
+		if has(cd.Atom) {
+			return true
+		}
+	}
+	for _, r := range p.Ret {
+		if has(r) {
+			return true
+		}
+	}
+	return false
 }
